@@ -42,3 +42,33 @@ def bigger(p, q):
 
 def quarter_turns(angle):
     return angle % 90 == 0
+
+
+from contextlib import contextmanager
+
+
+@contextmanager
+def _bracket(log, name):
+    log.append('enter ' + name)
+    try:
+        yield len(log)
+    finally:
+        log.append('exit ' + name)
+
+
+def with_generator_context(x):
+    log = []
+    with _bracket(log, 'a') as n:
+        log.append('body %d' % n)
+        if x > 0:
+            return log
+        log.append('tail')
+    log.append('after')
+    return log
+
+
+def mark_if_empty(a, p, q):
+    b = a * 1.0
+    if not b.any():
+        b[p, q] = 1.0
+    return b
